@@ -172,6 +172,32 @@ def c15_rewrite(fields=None, exclude=None):
     return {"violates": bool(bad), "detail": bad}
 
 
+def c15_rewrite_history(fields=None, exclude=None, order=None):
+    from flow.record import RecordDescriptor
+    from flow.record.stream import RecordFieldRewriter
+
+    gens = {"g1": [("varint", "a"), ("filesize", "b")], "g2": [("filesize", "b"), ("uint32", "c"), ("varint", "a")], "other": [("uint16", "b"), ("varint", "z")]}
+    names = {"g1": "c15/gen", "g2": "c15/gen", "other": "c15/other"}
+    rw = RecordFieldRewriter(fields=fields, exclude=exclude)
+    exs = exclude or []
+    for rnd in range(2):
+        for i, g in enumerate(order or ["g1", "g2", "other"]):
+            D = RecordDescriptor(names[g], gens[g])
+            rec = D(**{n: 10 * i + j for j, (_, n) in enumerate(gens[g])})
+            try:
+                o = rw.rewrite(rec)
+            except Exception as e:
+                return {"violates": True, "detail": f"rewriting a {g} record raised {type(e).__name__}: {e}"}
+            if fields:
+                want = [(dict((n, t) for t, n in gens[g])[n], n) for n in fields if n in [m for _, m in gens[g]] and n not in exs]
+            else:
+                want = [(t, n) for t, n in gens[g] if n not in exs]
+            got = [tuple(f) for f in o._desc.get_field_tuples()]
+            if got != want or any(getattr(o, n) != getattr(rec, n) for _, n in want):
+                return {"violates": True, "detail": f"a {g} record {gens[g]} was projected to {got} (values {[getattr(o, n, None) for _, n in got]}), expected {want}"}
+    return {"violates": False}
+
+
 def c15_sweep(seed=0, n=300):
     rng = random.Random(seed)
     names = ["a", "b", "c", "d", "ts", "ts_description", "e"]
@@ -237,4 +263,4 @@ def c15_sweep(seed=0, n=300):
     return {"violates": False, "cases": cases}
 
 
-CALLS = {"c15_extend": c15_extend, "c15_timestamps": c15_timestamps, "c15_grouped": c15_grouped, "c15_rewrite": c15_rewrite, "c15_sweep": c15_sweep}
+CALLS = {"c15_rewrite_history": c15_rewrite_history, "c15_extend": c15_extend, "c15_timestamps": c15_timestamps, "c15_grouped": c15_grouped, "c15_rewrite": c15_rewrite, "c15_sweep": c15_sweep}
